@@ -117,6 +117,20 @@ def _path_parent(ex, st, args, dest_ty, func, where):
     return opt_sym(HASPARENT(p), VRef("val", val=pathv(PP(p))))
 
 
+HASNAME = z3.Function("path_has_file_name", z3.IntSort(), z3.BoolSort())
+FNAME = z3.Function("path_file_name", z3.IntSort(), z3.IntSort())
+WITHNAME = z3.Function("path_with_file_name", z3.IntSort(), z3.IntSort(), z3.IntSort())
+
+
+def _file_name(ex, st, args, dest_ty, func, where):
+    p = path_term(ex, st, args[0])
+    return opt_sym(HASNAME(p), VRef("val", val=pathv(FNAME(p))))
+
+
+def _with_file_name(ex, st, args, dest_ty, func, where):
+    return pathv(WITHNAME(path_term(ex, st, args[0]), path_term(ex, st, args[1])))
+
+
 def _os_push(ex, st, args, dest_ty, func, where):
     ref = args[0]
     cur = path_term(ex, st, ref)
@@ -195,21 +209,44 @@ def _fs_copy(ex, st, args, dest_ty, func, where):
     return io_result(ex, ok, VInt(ex.fresh_int("copied", ty="u64"), "u64"))
 
 
+OO_FLAGS = ("create", "truncate", "write", "read", "append")
+
+
 def _file_open(call):
     def h(ex, st, args, dest_ty, func, where):
         ok = ex.fresh_bool(call + "_ok")
         p = path_term(ex, st, args[-1])
-        e = record(ex, st, call, path=p, ok=ok)
+        flags = {"create": z3.BoolVal(call == "create"), "truncate": z3.BoolVal(call == "create"), "write": z3.BoolVal(call == "create"),
+                 "read": z3.BoolVal(call == "open"), "append": z3.BoolVal(False)}
+        if call == "open-options":
+            oo = _deep(ex, st, args[0])
+            if isinstance(oo, VStruct) and oo.name == "OpenOptions" and len(oo.f) == len(OO_FLAGS):
+                flags = {k: oo.f[i].t for i, k in enumerate(OO_FLAGS)}
+        e = record(ex, st, call, path=p, ok=ok, flags=flags)
         return io_result(ex, ok, VStruct("File", [VInt(p, "usize"), VInt(I(e["seq"]), "usize")]))
     return h
 
 
 def _oo_new(ex, st, args, dest_ty, func, where):
-    return VStruct("OpenOptions", [])
+    return VStruct("OpenOptions", [VBool(z3.BoolVal(False)) for _ in OO_FLAGS])
 
 
 def _oo_set(ex, st, args, dest_ty, func, where):
-    return args[0]
+    """OpenOptions::{create,truncate,write,read,append}(&mut self, bool) -> &mut Self"""
+    which = func.rsplit("::", 1)[1]
+    ref = args[0]
+    oo = _deep(ex, st, ref)
+    if not (isinstance(oo, VStruct) and oo.name == "OpenOptions"):
+        return ref
+    val = args[1].t if isinstance(args[1], VBool) else z3.BoolVal(True)
+    new = VStruct("OpenOptions", [VBool(val) if k == which else oo.f[i] for i, k in enumerate(OO_FLAGS)])
+    if isinstance(ref, VRef):
+        try:
+            ex.store_ref(st, ref, new)
+            return ref
+        except Exception:
+            return VRef("val", val=new)
+    return new
 
 
 def _file_of(ex, st, v):
@@ -301,6 +338,8 @@ def install(ex):
     A(r"^<(std::ffi::)?OsStr as ToOwned>::to_owned$|^<PathBuf as From<(std::ffi::)?OsString>>::from$|^Path::to_path_buf$|^<PathBuf as Clone>::clone$|^<PathBuf as From<.*>>::from$", _to_path_buf, "owned copies of a path (same name)")
     A(r"^Path::join::<", _path_join, "Path::join (uninterpreted constructor)")
     A(r"^Path::parent$", _path_parent, "Path::parent (uninterpreted)")
+    A(r"^Path::file_name$", _file_name, "Path::file_name (uninterpreted)")
+    A(r"^Path::with_file_name::<", _with_file_name, "Path::with_file_name (uninterpreted)")
     A(r"^(std::ffi::)?OsString::push::<", _os_push, "OsString::push (uninterpreted suffix constructor)")
     A(r"^core::fmt::rt::Argument::<'_>::new_\w+::<", _fmt_arg, "fmt::Argument (names its value)")
     A(r"^Arguments::<'_>::new::<|^Arguments::<'_>::new_const::<|^Arguments::<'_>::from_str", _fmt_arguments, "fmt::Arguments (template id + argument names)")
